@@ -8,6 +8,39 @@ import (
 	"golang.org/x/tools/go/ssa"
 )
 
+// clearsParentOf: the instruction is v.SetParent(nil), or hands v to a module function that calls SetParent(nil) on that
+// parameter.
+func (w *World) clearsParentOf(ins ssa.Instruction) ssa.Value {
+	c, ok := ins.(*ssa.Call)
+	if !ok {
+		return nil
+	}
+	com := c.Common()
+	if com.IsInvoke() {
+		if com.Method.Name() == "SetParent" && len(com.Args) == 1 && isNilConst(com.Args[0]) {
+			return com.Value
+		}
+		return nil
+	}
+	cal := com.StaticCallee()
+	if cal == nil || !w.InModule(cal) || cal.Blocks == nil {
+		return nil
+	}
+	for i, p := range cal.Params {
+		if i >= len(com.Args) {
+			break
+		}
+		for _, b := range cal.Blocks {
+			for _, ci := range b.Instrs {
+				if cc, ok := ci.(*ssa.Call); ok && cc.Common().IsInvoke() && cc.Common().Value == ssa.Value(p) && cc.Common().Method.Name() == "SetParent" && len(cc.Common().Args) == 1 && isNilConst(cc.Common().Args[0]) {
+					return com.Args[i]
+				}
+			}
+		}
+	}
+	return nil
+}
+
 func ruleEndsFollowRemoval(w *World, r *Report) {
 	r.Rule("C13-R", "In every method of a node type in package ast that unlinks one child v of its receiver (it reads v.PreviousSibling() and v.NextSibling() and calls v.SetParent(nil)): on every path to a return on which the previous sibling was seen to be nil the receiver's firstChild is stored, and on every path on which the next sibling was seen to be nil the receiver's lastChild is stored (paths enumerated, nil tests followed through phis). Removing the only child otherwise leaves LastChild() pointing at a node that is no longer in the tree, and the next AppendChild links the new node behind the departed one.")
 	n := 0
@@ -21,6 +54,11 @@ func ruleEndsFollowRemoval(w *World, r *Report) {
 		clears := false
 		for _, b := range fn.Blocks {
 			for _, ins := range b.Instrs {
+				if x := w.clearsParentOf(ins); x != nil {
+					if _, isP := x.(*ssa.Parameter); isP {
+						clears = true
+					}
+				}
 				c, ok := ins.(*ssa.Call)
 				if !ok || !c.Common().IsInvoke() {
 					continue
@@ -33,10 +71,6 @@ func ruleEndsFollowRemoval(w *World, r *Report) {
 					prevV, victim = c, c.Common().Value
 				case "NextSibling":
 					nextV = c
-				case "SetParent":
-					if len(c.Common().Args) == 1 && isNilConst(c.Common().Args[0]) {
-						clears = true
-					}
 				}
 			}
 		}
@@ -62,7 +96,7 @@ func ruleEndsFollowRemoval(w *World, r *Report) {
 				for _, ins := range b.Instrs {
 					switch x := ins.(type) {
 					case *ssa.Call:
-						if x.Common().IsInvoke() && x.Common().Method.Name() == "SetParent" && x.Common().Value == victim {
+						if w.clearsParentOf(x) == victim {
 							unlinks = true
 						}
 					case *ssa.Store:
